@@ -34,10 +34,13 @@ class Plan(object):
 
 
 class RowF(object):
+    calls = []          # idents of the factories that really built rows (reset per case)
+
     def __init__(self, ident):
         self.ident = ident
 
     def __call__(self, names, rows):
+        RowF.calls.append(self.ident)
         return rows
 
 
@@ -105,6 +108,8 @@ def build(case):
                                   serial_consistency_level=pr['serial'], request_timeout=pr['timeout'], row_factory=RowF(pr['rowf']),
                                   speculative_execution_policy=Pol(pr['spec']), **pkw)
     profile.speculative_execution_policy.delay = case.get('spec_delay', 0.05)
+    if case.get('cont'):
+        profile.continuous_paging_options = cl.ContinuousPagingOptions()
     cluster.metadata.dbaas = bool(case.get('dbaas', False))
     cluster.profile_manager.profiles[cl.EXEC_PROFILE_DEFAULT] = profile
     cluster.profile_manager.profiles['named'] = profile
@@ -197,6 +202,25 @@ def build(case):
             out[k] = -777          # not a value at all (e.g. the FETCH_SIZE_UNSET sentinel leaked into the message)
     if out['timeout'] is not None and not isinstance(out['timeout'], (int, float)):
         out['timeout'] = -777.0
+    out['cont'] = bool(getattr(m, 'continuous_paging_options', None))
+    out['built_by'] = None
+    if case['kind'] != 'Batch':
+        # which factory builds the rows?  deliver one ROWS answer through the real _set_result (for a continuous-paging
+        # request: the first pushed page, built when the session's generator is consumed)
+        from cassandra.protocol import ResultMessage, RESULT_KIND_ROWS
+        from vf import pgconc_paging
+        r = ResultMessage(RESULT_KIND_ROWS)
+        r.column_names, r.column_types, r.parsed_rows, r.paging_state = ['a'], [None], [(1,)], None
+        r.stream_id, r.continuous_paging_seq, r.continuous_paging_last = 3, 1, True
+        del RowF.calls[:]
+        try:
+            f._set_result('h1', pgconc_paging.FakeConnection(pgconc_paging.Server([[1]], False)), None, r)
+            res = f._final_result
+            if out['cont']:
+                list(res)
+            out['built_by'] = RowF.calls[0] if RowF.calls else -1
+        except Exception as e:  # noqa
+            out['built_by'] = -2
     try:
         out['wire'] = wire_fields(m, case['pv'])
     except Exception as e:  # noqa
@@ -322,6 +346,10 @@ def g_case(case, res):
     eff = '(effective %s %s %s %s %s %s %s %d)' % (case['mode'], case['kind'], st, prof, sess, t, oz(case['paging']), case['pv'])
     enc = 'true' if isinstance(res, tuple) or 'error' not in (res.get('wire') or {}) else 'false'
     out = 'ofields_eqb %s %s && Bool.eqb (encodes_opt %s %s %d) %s' % (eff, got, case['kind'], eff, case['pv'], enc)
+    if not isinstance(res, tuple) and res.get('built_by') is not None:
+        out += ' && oz_eqb (built_by_opt %s %s) (Some %s)' % (eff, 'true' if res['cont'] else 'false', zl(res['built_by']))
+        want_cont = bool(case.get('cont'))
+        out += ' && Bool.eqb (continuous_in_effect %s %s) %s' % (case['mode'], 'true' if want_cont else 'false', 'true' if res['cont'] else 'false')
     if not isinstance(res, tuple):
         out += ' && timer_eqb (first_timer_opt %s %d) %s' % (eff, tz(case.get('spec_delay', 0.05)), g_timer(res['timer'], res['timeout']))
     return out
